@@ -1,7 +1,7 @@
 """C02 - Verify accepts exactly the one canonical signature."""
 from hypothesis import strategies as st
 
-from vf.harness import HarnessError, Task, drive, hx, unhx
+from vf.harness import HarnessError, Task, drive, hx, run_cases_optimized, unhx
 from vf.model import bls12381 as B
 from vf.model import blssig
 from vf.model.curves import BLS
@@ -31,7 +31,7 @@ ARMS = ("canonical", "other_key", "other_msg", "other_suite", "pop_confusion", "
 _REQ = [f"arm:{a}" for a in ARMS] + ["verdict:True", "verdict:False", "reached_pairing:False-verdict",
                                       "pop_confusion:sequence", "entry:PopVerify", "entry:Verify:basic", "entry:Verify:aug", "entry:Verify:pop",
                                       "bitflip:flag_bit", "canonical:coordinate_leading_byte=0x1a",
-                                      "canonical:coordinate_leading_byte=0x00", "derived:basic", "derived:aug", "derived:pop", "threads:concurrent_verify"]
+                                      "canonical:coordinate_leading_byte=0x00", "derived:basic", "derived:aug", "derived:pop", "threads:concurrent_verify", "python_-O:cases"]
 REQUIRED_LABELS = {"quick": _REQ, "thorough": _REQ}
 
 
@@ -230,6 +230,12 @@ def o_threads(ctx, case):
 
 
 def t_threads(ctx, n):
+    # every candidate arm once more in an interpreter started with -O
+    jobs = [{"sub": "verify", "case": build((sc.SUITES[i % 3], "Verify" if i % 4 else "PopVerify", 900 + i, b"under -O", arm,
+                                              4321 + i, i, [766]))} for i, arm in enumerate(ARMS)]
+    jobs.append({"sub": "derived", "case": {"suite": "aug", "sk": 77, "msg": hx(b"under -O"), "tag": hx(sc.APP_TAGS[0]),
+                                            "pop_tag": hx(b"APP-POP")}})
+    run_cases_optimized(ctx, "C02", jobs)
     for i in range(n):
         o_threads(ctx, {"sk": 1234567 + 17 * i + ctx.seed, "msg": hx(b"concurrent-%d" % i), "rot": 2 * i, "threads": 3})
 
